@@ -116,13 +116,29 @@ Definition relabel (tb : list bool) (st : jstate) (li : nat) (outs : list (bytes
            | None => o
            end
          else o) outs.
-Fixpoint tb_prepare (tb : list bool) (relab : bool) (st : jstate) (tes : list tevent)
+(* ... except for a request the PROPERTY routes to an explicit next hop (the judge's own reading of the precedence: a
+   Route entry or a static route): when that hop happens to be a backend's address, what is written there is bytes on
+   a connection like for any other TCP next hop, not a delivery "to a backend" *)
+Definition to_the_service (c : cfg) (st : jstate) (ev : event) : bool :=
+  match j_input st ev with
+  | Some i =>
+      match j_read (ji_data i), nth_opt (c_listens c) (ji_li i) with
+      | Some m, Some lc =>
+          match j_request m with
+          | Some q => match j_choose c lc (ji_tcp i) q with HHop _ => false | _ => true end
+          | None => true
+          end
+      | _, _ => true
+      end
+  | None => true
+  end.
+Fixpoint tb_prepare (c : cfg) (tb : list bool) (relab : bool) (st : jstate) (tes : list tevent)
          (obs : list (list (bytes * bytes) * list nat)) : list event * list (list (bytes * bytes) * list nat) :=
   match tes, obs with
   | te :: tr, (outs, closed) :: or_ =>
       let ev := j_resolve st te in
-      let outs' := if relab then relabel tb st (j_ev_li st ev) outs else outs in
-      let '(evs, os) := tb_prepare tb relab (js_step_c st ev outs closed) tr or_ in
+      let outs' := if (relab && to_the_service c st ev)%bool then relabel tb st (j_ev_li st ev) outs else outs in
+      let '(evs, os) := tb_prepare c tb relab (js_step_c st ev outs closed) tr or_ in
       (ev :: evs, (outs', closed) :: os)
   | _, _ => ([], [])
   end.
@@ -138,7 +154,7 @@ Definition judge_tb (relab : bool)
   | Some (tc, obs) =>
       match run_dec (d_rep d_obs_event (List.length (tc_events tc))) obs with
       | Some o =>
-          let '(evs, os) := tb_prepare (tc_tb tc) relab (js_init (pc_cfg (tc_pc tc))) (tc_events tc) o in
+          let '(evs, os) := tb_prepare (pc_cfg (tc_pc tc)) (tc_tb tc) relab (js_init (pc_cfg (tc_pc tc))) (tc_events tc) o in
           match run (with_events (tc_pc tc) evs) evs os with
           | None => [s2b "ok"]
           | Some (e, why) => [s2b "bad"; e_nat e; e_nat why]
